@@ -3,6 +3,7 @@ in-process network with exact step-by-step correspondence, independent oracles, 
 import random
 
 import common
+import net_gen2 as G2
 import net_run as R
 import net_sync as N
 
@@ -31,7 +32,11 @@ def run_property(ctx, pid, profiles, nprog, nops, scenarios=(), own_props=None, 
     for i in range(nprog):
         # every pb_every-th program runs over the real Perspective Broker (in-memory transports) instead of direct calls
         use_pb = pb_every and (i % pb_every == pb_every - 1)
-        runners.append(R.random_program(env, rng, nops, profiles[i % len(profiles)], pb=use_pb))
+        if i % 4 == 3:
+            # every fourth program keeps several multi-qubit registers side by side on one node (harness/net_gen2.py)
+            runners.append(G2.clustered_program(env, rng, nops, pb=use_pb))
+        else:
+            runners.append(R.random_program(env, rng, nops, profiles[i % len(profiles)], pb=use_pb))
         if use_pb:
             ctx.count("programs_over_real_PB")
     fixed = []
